@@ -309,13 +309,14 @@ ssse3_bilinear_cover_iter_init (pixman_iter_t *iter, const pixman_iter_info_t *i
     return;
 
 fail:
-    /* Something went wrong, either a bad matrix or OOM; in such cases,
-     * we don't guarantee any particular rendering.
+    /* Something went wrong, either a bad matrix or OOM.  A fetcher that
+     * does nothing would leave the zeroed scanline buffer in place, and
+     * the request would be composited with a transparent source: for
+     * SRC, IN, IN_REVERSE, OUT, ... that erases the destination instead
+     * of skipping the request.  The general fetchers need no memory and
+     * deal with a bad matrix themselves, so use them.
      */
-    _pixman_log_error (
-	FUNC, "Allocation failure or bad matrix, skipping rendering\n");
-    
-    iter->get_scanline = _pixman_iter_get_scanline_noop;
+    _pixman_bits_image_src_iter_init (iter->image, iter);
     iter->fini = NULL;
 }
 
